@@ -132,7 +132,7 @@ func main() {
 		Rule: "One scenario per (kind, chain, public-point family, secret kind, N, t), all 1<=t<=N<=5 (quick) / 6 (thorough). combine: every ordered list of exactly t distinct active parties (sum over t of N!/(N-t)! leaves) x 3 listing orders of the points given to NewCombiner, " +
 			"every ordered list of fewer than t parties (must be refused with an error), and every list of t+1 parties (superset: outcome recorded, not judged). Each leaf: every active party's GenAdditiveShare is compared residue by residue over QP with lambda_i * (sum_j f_j(x_i)) computed with math/big (Horner + ModInverse), " +
 			"their sum with the sum of all N secret keys, and the t parties then decrypt collectively (KeySwitch to the zero key) a ciphertext under the ideal secret, compared with the N-party run. " +
-			"N = 7 on one family in quick, on two chains and N = 8 on one family in thorough (beyond the property's N <= 6). combine leaves also vary the Combiner history (fresh / already served the reversed list / another subset); every other party's Thresholdizer already served another sharing; GenShamirSecretShare writes into a fresh share / the dealer's outgoing buffer still holding the previous recipient's share / a buffer holding a share of another sharing (rotating over dealer x recipient); every other aggregation output and additive-share output is a used buffer; a third of the configurations use coefficient-domain parameters; chains include a conjugate-invariant ring and one without P;  The t parties also generate a collective public key with their additive shares, which must be a key of the ideal secret. " +
+			"N = 7 on one family in quick, on two chains and N = 8 on one family in thorough (beyond the property's N <= 6). combine leaves also vary the Combiner history (fresh / already served the reversed list / another subset); every other party's Thresholdizer already served another sharing; GenShamirSecretShare writes into a fresh share / the dealer's outgoing buffer still holding the previous recipient's share / a buffer holding a share of another sharing (rotating over dealer x recipient); every other aggregation output and additive-share output is a used buffer; retained objects are independent of their inputs: the key object given to GenShamirPolynomial is overwritten between two dealing sessions (first half / second half of the recipients) and the points slice given to NewCombiner is overwritten after construction, and a reflective snapshot (snap) finds no memory shared between a returned polynomial / share / additive share and the inputs or the callee; a third of the configurations use coefficient-domain parameters; chains include a conjugate-invariant ring and one without P;  The t parties also generate a collective public key with their additive shares, which must be a key of the ideal secret. " +
 			"setup: merge lattice (all orders and tree shapes, N<=4, 8 variants per merge incl. WriteTo/ReadFrom over fragmenting transports, <=1 non-plain quick / <=2 thorough) of the N Shamir shares a receiver gets, for every receiver, against the reference evaluation of the senders' polynomials. collide: points colliding / zero modulo a prime, only required not to panic.",
 		Assumptions: []string{
 			"public points are pairwise distinct and non-zero modulo every prime q_i and p_j of the parameters (Shamir's precondition in each field Z_q); candidates that violate it are walked upwards until they satisfy it",
@@ -143,7 +143,7 @@ func main() {
 		QuickBudget:    150 * time.Second,
 		ThoroughBudget: 25 * time.Minute,
 		Expect: func(tier string) []string {
-			e := []string{"kind=setup", "kind=combine", "kind=collide", "chain=mid", "chain=tiny", "chain=big", "chain=midci", "chain=nop", "downstream=collective-public-key", "downstream-domain=ntt=true", "downstream-domain=ntt=false", "thresholdizer-history=after-another-sharing", "share-buffer=fresh", "share-buffer=previous-recipient", "share-buffer=other-sharing", "merge-variant=stream-first-1byte", "merge-variant=stream-second-split5", "N=6",
+			e := []string{"kind=setup", "kind=combine", "kind=collide", "chain=mid", "chain=tiny", "chain=big", "chain=midci", "chain=nop", "downstream=collective-public-key", "downstream-domain=ntt=true", "downstream-domain=ntt=false", "retained-objects=input-overwritten", "thresholdizer-history=after-another-sharing", "share-buffer=fresh", "share-buffer=previous-recipient", "share-buffer=other-sharing", "merge-variant=stream-first-1byte", "merge-variant=stream-second-split5", "N=6",
 				"family=small", "family=p32", "family=p63", "family=mixed", "secret=ternary", "secret=ones", "secret=monomial",
 				"actives=exactly-t", "actives=fewer-than-t", "actives=superset", "refused=fewer-than-t", "downstream=decrypts",
 				"point>q=true", "point>q=false", "point>=2^63=true", "others-order=index", "others-order=reversed", "others-order=own-omitted",
